@@ -90,9 +90,11 @@ func c11Generated(t *fw.T) {
 			t.Failf("token %d: got %v %s, want %s %q", i, tt, fw.Q(data), w.Type, wd)
 			return
 		}
+		// Text() is not asked of every token: what a token reports must not depend on whether the previous one was looked at
+		callText := tt != xml.EndTagToken && tt != xml.CommentToken || t.Rng.Intn(3) > 0
 		switch tt {
 		case xml.StartTagToken, xml.StartTagPIToken, xml.EndTagToken, xml.CommentToken, xml.CDATAToken, xml.DOCTYPEToken, xml.AttributeToken, xml.TextToken:
-			if string(l.Text()) != w.Text {
+			if callText && string(l.Text()) != w.Text {
 				t.Failf("token %d %v %s: Text()=%s want %q", i, tt, fw.Q(data), fw.Q(l.Text()), w.Text)
 				return
 			}
@@ -121,7 +123,7 @@ func c11Generated(t *fw.T) {
 		case xml.StartTagCloseToken, xml.StartTagClosePIToken:
 			open = open[:len(open)-1]
 		case xml.EndTagToken:
-			got.seq = append(got.seq, "E:"+string(l.Text()))
+			got.seq = append(got.seq, "E:"+w.Text) // (compared with Text() above whenever it was called)
 		}
 	}
 	if t.Failed() {
